@@ -235,8 +235,17 @@ def run(chk):
     ug = url_grid(chk.tier)
     wg = url_grid("thorough")
     allc = 0
-    f, t1 = grid.run(chk, ug, 2 if quick else 3, evaluate_url, target=15000,
+    # thorough = every base and every documented item with d <= 2, plus the quick bases / representative items with d <= 3
+    # (d <= 3 over every base x 16 option vectors does not finish in an hour)
+    f, t1 = grid.run(chk, ug, 2, evaluate_url, target=15000,
                      shrink=(lambda case: dict(wg.wit(case), kind="url"), simplify, fails_fn))
+    if not quick:
+        dg = url_grid("quick")
+        dg.name = "urls-deep"
+        f, t1b = grid.run(chk, dg, 3, evaluate_url, target=15000,
+                          shrink=(lambda case: dict(wg.wit(case), kind="url"), simplify, fails_fn))
+        for k_, v_ in t1b.items():
+            t1[k_] = t1.get(k_, 0) + v_
     f, t2 = grid.run(chk, HOST_GRID, None, evaluate_host, shrink=(lambda case: dict(HOST_GRID.wit(case), kind="host"), simplify, fails_fn))
     f, t3 = grid.run(chk, REDIR_GRID, 2 if quick else 3, evaluate_redirect, target=15000,
                      shrink=(lambda case: dict(REDIR_GRID.wit(case), kind="redirect"), simplify, fails_fn))
